@@ -475,6 +475,20 @@ def unfold(t, Kop, k):
                 f.append(nid(args_[i]) < nid(args_[i + 2]))
     if Kop == POW:
         f.append(isconst(args_[1]))
+    # constructor normalisations (C04/C06 contracts of the constructors): such nodes are never built
+    if Kop == NOT:
+        f.append(op(args_[0]) != NOT)
+    if Kop == DIV:
+        f.append(z3.Not(z3.And(op(args_[1]) == REAL_CONSTANT, pl_real(args_[1]) != 0)))
+    if Kop == TOREAL:
+        f.append(op(args_[0]) != INT_CONSTANT)
+    if Kop == POW:
+        # FormulaManager.Pow folds a constant base with an integer exponent (except 0 ** negative)
+        b, e = val(args_[0]), val(args_[1])
+        e_int = z3.Or(Val.is_VInt(e), z3.And(Val.is_VReal(e), z3.IsInt(vr(e))))
+        e_neg = z3.Or(z3.And(Val.is_VInt(e), vi(e) < 0), z3.And(Val.is_VReal(e), vr(e) < 0))
+        b_zero = z3.Or(b == VInt(0), b == VReal(0))
+        f.append(z3.Implies(isconst(args_[0]), z3.Or(z3.Not(e_int), z3.And(b_zero, e_neg))))
     return f
 
 
